@@ -23,11 +23,11 @@ checks = {
    note="trusted: the simulated disk's kill model (completed calls survive, no power-loss model), atomic rename, the engine's own option table (URL parameter / JSON field / default) taken from the documented settings format",
    tech="deterministic simulation: seeded histories + exhaustive single-fault/crash-point enumeration on a simulated disk + seeded interleavings with linearizability search"),
  "C16": dict(cat="exploration", ref="DESIGN.md §3 C16",
-   text="driver.PProf is run end to end with every fetch goroutine a simulated task; a seeded scheduler and simulated latencies fix the completion order and a seeded fault plan decides which sources fail and how (missing, HTTP status, garbage, torn, invalid, Fetcher error, stall to timeout in simulated time, disk read error), across the 128-source chunk boundary; the merged -proto report is checked against a reference model built from the generator's description of the good sources, against the sequential schedule (bytes) and against the run listing only the good sources, with per-source error accounting and exit status. For n<=3 (quick) / n<=4 (thorough) remote sources all failing subsets x completion orders are enumerated; everything else is sampled.",
+   text="driver.PProf is run end to end with every fetch goroutine a simulated task; a seeded scheduler and simulated latencies fix the completion order and a seeded fault plan decides which sources fail and how (missing, HTTP status, garbage, torn, invalid, Fetcher error, stall to timeout in simulated time, disk read error), across the 128-source chunk boundary; the merged -proto report is checked against a reference model built from the generator's description of the good sources, against the sequential schedule (bytes) and against the run listing only the good sources, with per-source error accounting, exit status and the command-line order of the merge (one comment per source). In part of the cases URL sources go through pprof's own internal/transport over a simulated TLS network (http, https, https to a self-signed server, https+insecure, -tls_ca). For n<=3 (quick) / n<=4 (thorough) remote sources all failing subsets x completion orders are enumerated; everything else is sampled.",
    note="trusted: the simulated transport returns only results a real server/kernel can return; http.Client's timeout goroutine is not simulated (the stall is modelled in the transport)",
    tech="deterministic simulation: seeded scheduler + simulated latencies + per-source fault plans; reference model and schedule/failure-independence oracles"),
  "C10": dict(cat="exploration", ref="DESIGN.md §3 C10",
-   text="seeded interactive and web histories, and concurrent web mixes under a seeded scheduler with function-entry preemption, run against the real driver; each step is compared (output bytes, UI transcript, HTTP status and body) with the same step on a fresh session after a simulated process boundary that executed only the preceding option assignments - an executable reference that needs no model of option semantics.",
+   text="seeded interactive and web histories, and concurrent web mixes under a seeded scheduler with function-entry preemption, run against the real driver; each step is compared (output bytes, UI transcript, HTTP status and body) with the same step on a fresh session after a simulated process boundary that executed only the preceding option assignments - an executable reference that needs no model of option semantics. Web clients may go away mid-response; half of the interactive sessions also have their loaded profile watched across commands (a modification triggers a battery of plain reports compared with fresh sessions).",
    note="trusted: the simulated process boundary (generated re-initialisation of all package-level state of the instrumented packages) is equivalent to a new process",
    tech="deterministic simulation: seeded histories and interleavings, refinement against a fresh-session reference"),
  "C08": dict(cat="exploration", ref="DESIGN.md §3 C08, §2.4",
